@@ -34,11 +34,32 @@ Soundness limits actually implemented:
    so the result is compared as an *unrooted* tree (leaf set, split set, summed split lengths, leaf
    paths); lengths only when the source has no missing non-root length.
  * Node.extract_subtree on a non-root node whose top becomes unary raises ValueError (a TODO in the
-   library); Tree-level statement, so this is noted, not judged.
+   library); Tree-level statement, so this is noted, not judged -- but ONLY when suppression was requested
+   and the reference model says that the called-on node is merged into its child; any other ValueError is
+   an unexpected exception (violation).
+ * nothing excluded at all (every leaf kept, no node filtered out): the STATEMENT speaks of nodes *left*
+   with a single child and the extract_* docstrings say suppression "only will be done if some nodes are
+   excluded", so pre-existing unary nodes may be kept or suppressed: both forms are accepted.
+ * leaves that carry no taxon are leaves like any other: they survive unless the call names them (filter
+   function / node list / subtree) or the call is one whose documented purpose is to remove them
+   (prune_leaves_without_taxa, prune_nodes(prune_leaves_without_taxa=True): not driven on such trees).
+   Taxa sitting on internal nodes are neither kept nor dropped by a leaf subset: the expected tree is the one
+   induced by the surviving *leaves*.  When a result deviates from that only by (a) a taxon-less source leaf
+   removed or (b) an emptied taxon-bearing internal node left behind as a new leaf, the violation gets its own
+   clause (wrong-leaf-set:taxonless-source-leaf-removed / :emptied-internal-node-with-taxon-left) and the
+   result is then judged against the tree induced by the leaf set the library actually produced, so that
+   every other clause keeps its power on these input classes.
  * label-based variants are judged by label semantics, object-based ones by Taxon identity
    (they are compared with each other only in worlds without duplicate labels); labels that differ
    only by case are not generated (namespace lookups are case-insensitive by default, the
-   extract_*_labels wrappers match exactly; one fixed probe records the disagreement as a note).
+   extract_*_labels wrappers match exactly: the two routes resolve the *argument* to different taxon
+   sets, which is a matter of label lookup, not of the induced-subtree statement; one fixed probe records
+   the disagreement as a note).  Labels with blanks / underscores / non-ASCII letters / the empty label are
+   generated ('odd labels' worlds).
+ * filter predicates answer with arbitrary truthy / falsy objects (None, 0, '', (), 1, 'x', an object ...):
+   the documented "returns True / False" is read with Python truth semantics.
+ * the taxa / labels argument may name taxa that are in the namespace but not on the tree, taxa outside the
+   namespace and unknown labels: they select no leaf.
  * every call keeps >= 1 leaf (quantifier); lengths are ints / dyadics (exact comparison) except the
    'float' pattern (1e-9 relative).
  * the taxa / labels argument is normally a re-iterable container (list, tuple, set, frozenset, dict keys,
@@ -48,10 +69,13 @@ Soundness limits actually implemented:
  * bipartition encodings produced by update_bipartitions=True are not inspected (that is C01's oracle).
 
 Violation keys: <api function>|<failed clause>|<discriminator>, discriminator = 'extraction' |
-'update_bipartitions=<flag>' | 'one-shot-iterable'.
+'update_bipartitions=<flag>' | 'one-shot-iterable'.  prune_nodes with its default
+prune_leaves_without_taxa=False is its own api function name 'prune_nodes(prune_leaves_without_taxa=False)'
+(its own code path in the library); the dendropy.legacy.treemanip wrappers are 'legacy.<name>'.
 """
 import itertools
 import random
+import warnings
 
 from .. import ref, gen, bridge
 from ..mon.hooks import Hooks
@@ -62,14 +86,20 @@ PROP = "C08"
 LEVEL = "exploration"
 TECHNIQUE = "hooked API calls judged against an induced-subtree reference model"
 RULE = ("cases = (every rooted shape with n<=5 (thorough: n<=6) x every non-empty leaf subset x suppress x "
-        "update_bipartitions x every API variant) + random trees (polytomies, pre-existing unary nodes, "
-        "missing lengths, duplicate labels, leaves without taxa) x biased subsets x node-filter predicates x "
-        "argument containers; a case is non-trivial when at least one leaf is removed and at least one "
+        "update_bipartitions x every API variant incl. prune_nodes with and without prune_leaves_without_taxa) + "
+        "random trees (polytomies, pre-existing unary nodes, missing / zero / int-float-mixed lengths, duplicate "
+        "and odd labels, taxa on internal nodes, leaves without taxa, namespaces larger than the tree) x biased "
+        "subsets x node-filter predicates (answering with arbitrary truthy / falsy objects) x argument containers "
+        "(padded with taxa / labels that are not on the tree) x option values (recursive, is_apply_filter_*, "
+        "factories, legacy wrappers) + histories (2-4 operations chained on one tree, with or without an existing "
+        "bipartition encoding, extraction of extracted trees, clones re-inspected after the source was pruned); "
+        "a case is non-trivial when at least one leaf is removed and at least one "
         "internal node survives or is merged; distinct = distinct (canonical source tree with lengths, "
         "surviving set, operation, flags)")
 REACH = ["_tree:Tree.prune_taxa", "_tree:Tree.prune_taxa_with_labels", "_tree:Tree.retain_taxa",
          "_tree:Tree.retain_taxa_with_labels", "_tree:Tree.filter_leaf_nodes", "_tree:Tree.prune_subtree",
-         "_tree:Tree.prune_leaves_without_taxa", "_tree:Tree.suppress_unifurcations",
+         "_tree:Tree.prune_leaves_without_taxa", "_tree:Tree.prune_nodes", "_tree:Tree.suppress_unifurcations",
+         "_tree:Tree.encode_bipartitions", "_tree:Tree.collapse_basal_bifurcation",
          "_tree:Tree.extract_tree", "_tree:Tree.extract_tree_with_taxa", "_tree:Tree.extract_tree_with_taxa_labels",
          "_tree:Tree.extract_tree_without_taxa", "_tree:Tree.extract_tree_without_taxa_labels",
          "_node:Node.extract_subtree"]
@@ -93,18 +123,55 @@ MIN_EVENTS = {"oracle:induced-compared": (120000, 600000),
               "hook:Tree.extract_tree_with_taxa_labels:return": (5000, 25000),
               "hook:Tree.extract_tree_without_taxa:return": (5000, 25000),
               "hook:Tree.extract_tree_without_taxa_labels:return": (5000, 25000),
-              "hook:Node.extract_subtree:return": (5000, 25000)}
+              "hook:Node.extract_subtree:return": (5000, 25000),
+              # ---- monitors added after the audit ----
+              "hook:Tree.prune_nodes:return": (35000, 180000),
+              "op:prune_nodes": (18000, 90000),
+              "op:prune_nodes(prune_leaves_without_taxa=False)": (18000, 90000),
+              "class:taxa-on-internal-nodes": (9000, 90000),
+              "class:leaves-without-taxon": (4000, 50000),
+              "class:boundary-lengths": (8000, 100000),
+              "class:namespace-larger-than-tree": (18000, 190000),
+              "class:odd-labels": (6000, 65000),
+              "arg:padded-with-taxa-or-labels-not-on-the-tree": (5500, 55000),
+              "predicate:answers-with-non-bool-objects": (20000, 140000),
+              "oracle:nothing-excluded-compared": (10000, 60000),
+              "history:step-1-judged": (450, 3000),
+              "history:step-2+-judged": (650, 4500),
+              "history:tree-carries-a-bipartition-encoding": (180, 1100),
+              "history:continues-on-the-extracted-tree": (120, 800),
+              "oracle:clone-independent-of-later-source-pruning-compared": (180, 1200),
+              "subnode:extract_subtree-judged": (150, 2000),
+              "legacy:wrapper-judged": (1800, 14000),
+              "option:extract_tree-with-tree-and-node-factory": (750, 7000),
+              "option:extract_subtree-with-node-factory": (700, 7000),
+              "filters:prune_leaves_without_taxa recursive=False": (190, 2300),
+              "filters:prune_leaves_without_taxa recursive=True": (190, 2300),
+              "filters:prune_taxa is_apply_filter_to_leaf_nodes=default is_apply_filter_to_internal_nodes=default": (110, 1300),
+              "filters:prune_taxa is_apply_filter_to_leaf_nodes=False is_apply_filter_to_internal_nodes=default": (55, 650),
+              "filters:prune_taxa is_apply_filter_to_leaf_nodes=default is_apply_filter_to_internal_nodes=True": (60, 700)}
 ASSUMPTIONS = ["trees are built through the node API (Node.add_child) and read back from the raw child lists",
-               "every node of a workload tree carries a unique name (leaf: taxon, internal: node label) so that "
-               "'which node survives a merge' and extraction_source can be judged",
+               "every node of a workload tree carries a unique name (its taxon if it has one, else its node label) so "
+               "that 'which node survives a merge' and extraction_source can be judged",
+               "'the surviving leaves' are the source leaves that the call does not name: a leaf without taxon is a leaf, "
+               "a taxon on an internal node does not make that node a leaf",
+               "a filter function's answer is read with Python truth semantics",
                "Taxon identity is the given notion of 'the same taxon'; label-based variants are judged by label",
                "a missing edge length contributes nothing to a merged length or to a path length"]
-LEVEL_TEXT = "exhaustive small shapes x all subsets plus seeded random trees, real API under hooks"
+LEVEL_TEXT = ("exhaustive small shapes x all subsets plus seeded random trees (incl. taxa on internal nodes, leaves "
+              "without taxon, boundary lengths, larger namespaces) and operation histories, real API under hooks")
 LEVEL_NOTE = "held = no oracle clause failed on the executions listed; not a proof for larger trees"
 CASE_TIMEOUT = 120
 
+PN_DEFAULT = "prune_nodes(prune_leaves_without_taxa=False)"
 INPLACE = ("prune_taxa", "prune_taxa_with_labels", "retain_taxa", "retain_taxa_with_labels",
-           "filter_leaf_nodes", "prune_nodes", "prune_subtree", "prune_leaves_without_taxa")
+           "filter_leaf_nodes", "prune_nodes", PN_DEFAULT, "prune_subtree", "prune_leaves_without_taxa")
+LEGACY = ("legacy.prune_taxa", "legacy.retain_taxa", "legacy.prune_subtree", "legacy.prune_leaves_without_taxa")
+# operations whose documented purpose is to remove every taxon-less leaf: not a 'keep this subset' route on
+# trees that contain such leaves
+REMOVES_TAXONLESS = ("prune_nodes", "prune_leaves_without_taxa", "legacy.prune_leaves_without_taxa")
+NO_CONTAINER = ("filter_leaf_nodes", "prune_subtree", "prune_leaves_without_taxa", "extract_tree",
+                "Node.extract_subtree", "legacy.prune_subtree", "legacy.prune_leaves_without_taxa")
 EXTRACT = ("extract_tree_with_taxa", "extract_tree_with_taxa_labels", "extract_tree_without_taxa",
            "extract_tree_without_taxa_labels", "extract_tree", "Node.extract_subtree")
 LABEL_OPS = ("prune_taxa_with_labels", "retain_taxa_with_labels", "extract_tree_with_taxa_labels",
@@ -136,6 +203,23 @@ DIRECTED = [
      "sup": True, "upd": False, "rooted": True},
     {"name": "root-left-with-one-child", "newick": "((A:1,B:2)ab:4,(C:8,D:16)cd:32)r", "keep": ["C", "D"],
      "sup": True, "upd": True, "rooted": False},
+    # ---- smallest members of the input classes added after the audit ----
+    # taxa on internal nodes: a leaf subset neither keeps nor drops them (retain_taxa hands them to prune_taxa)
+    {"name": "internal-node-taxa-survivor-below", "newick": "((A:1,B:2)X:4,(C:8,D:16)cd:32)R", "keep": ["A", "C"],
+     "sup": True, "upd": False, "rooted": True, "internal_taxa": ["X", "R"]},
+    {"name": "internal-node-taxa-emptied", "newick": "((A:1,B:2)X:4,(C:8,D:16)cd:32)R", "keep": ["C", "D"],
+     "sup": True, "upd": False, "rooted": True, "internal_taxa": ["X", "R"]},
+    # a leaf without taxon among the leaves: not named by any taxon list, so it survives
+    {"name": "taxonless-leaf-in-source", "newick": "((A:1,B:2,x:3)ab:4,(C:8,D:16)cd:32)r", "keep": ["A", "C"],
+     "sup": True, "upd": False, "rooted": True, "taxonless": ["x"]},
+    # zero length on a node that becomes unary, above a child without length (and the mirror image)
+    {"name": "zero-length-meets-missing-length", "newick": "((A,B:2)ab:0,(C:0,D:16)cd,E:1)r", "keep": ["A", "C", "E"],
+     "sup": True, "upd": False, "rooted": True},
+    # predicates answering None / '' / () for 'reject' and 1 / 'x' / an object for 'accept'
+    {"name": "predicate-answers-none", "newick": "((A:1,B:2)ab:4,(C:8,D:16)cd:32)r", "keep": ["A", "C", "D"],
+     "sup": True, "upd": False, "rooted": True, "costume": 7},
+    {"name": "predicate-answers-empty-string", "newick": "((A:1,B:2)ab:4,(C:8,D:16)cd:32)r", "keep": ["A", "C", "D"],
+     "sup": False, "upd": True, "rooted": True, "costume": 20},
 ]
 
 
@@ -164,6 +248,12 @@ def cases(tier, seed):
     nsub = 120 if tier == "quick" else 1500
     for i in range(nsub):
         yield {"kind": "subnode", "i": i, "seed": seed}
+    nhist = 1200 if tier == "quick" else 8000
+    for i in range(nhist):
+        yield {"kind": "history", "i": i, "seed": seed}
+    nopt = 120 if tier == "quick" else 1000
+    for i in range(nopt):
+        yield {"kind": "options", "i": i, "seed": seed}
 
 
 # ======================================================================================
@@ -185,8 +275,9 @@ def pow2_lengths(spec, root_length):
     return spec
 
 
-def parse_tiny_newick(s):
-    """'((A:1,B:2)ab:4,C:8)r:16' -> spec (for the directed witnesses only)."""
+def parse_tiny_newick(s, internal_taxa=(), taxonless=()):
+    """'((A:1,B:2)ab:4,C:8)r:16' -> spec (for the directed witnesses only).  Internal names are node labels
+    unless listed in internal_taxa; leaf names are taxa unless listed in taxonless (then node labels)."""
     pos = [0]
 
     def node():
@@ -212,28 +303,50 @@ def parse_tiny_newick(s):
             ln = int(s[j + 1:k])
             pos[0] = k
         if kids:
+            if name in internal_taxa:
+                return ref.S(name, kids, ln, None)
             return ref.S(None, kids, ln, name)
+        if name in taxonless:
+            return ref.S(None, [], ln, name)
         return ref.S(name, [], ln, None)
     return node()
 
 
 class World(object):
-    def __init__(self, spec, rooted, real_labels=None):
+    def __init__(self, spec, rooted, real_labels=None, n_extra=0, flavours=()):
         import dendropy
         self.spec = spec
         self.rooted = rooted
+        self.flavours = tuple(flavours)
         self.taxon_names = [n[0] for n in ref.preorder(spec) if n[0] is not None]
         self.ns = dendropy.TaxonNamespace()
         self.taxa = {}
         self.names = {}
         self.real = {}
-        for nm in self.taxon_names:
-            lbl = real_labels[nm] if real_labels else nm
+        # taxa that are in the namespace but on no node (interleaved with the tree's taxa), taxa that are in
+        # no namespace at all, labels that nothing carries: an argument may name them, they select no leaf
+        self.ns_only = []
+        self.foreign = []
+        self.unknown_labels = ["zz~nowhere%d" % k for k in range(2)] if n_extra else []
+        every = max(1, len(self.taxon_names) // (n_extra + 1)) if n_extra else 0
+        for k, nm in enumerate(self.taxon_names):
+            if n_extra and k % every == 0 and len(self.ns_only) < n_extra:
+                t = dendropy.Taxon(label="Nq~%d" % len(self.ns_only))
+                self.ns.add_taxon(t)
+                self.ns_only.append(t)
+                self.names[id(t)] = "?ns-only-%d" % len(self.ns_only)
+            lbl = real_labels.get(nm, nm) if real_labels else nm
             t = dendropy.Taxon(label=lbl)
             self.ns.add_taxon(t)
             self.taxa[nm] = t
             self.names[id(t)] = nm
             self.real[nm] = lbl
+        for k in range(min(n_extra, 2)):
+            t = dendropy.Taxon(label="Fq~%d" % k)
+            self.foreign.append(t)
+            self.names[id(t)] = "?foreign-%d" % k
+        if n_extra:
+            self.flavours += ("namespace-larger-than-tree",)
         self.leaf_names = [U.name_of(n) for n in ref.leaves(spec)]
         self.leaf_taxon_names = [n[0] for n in ref.leaves(spec) if n[0] is not None]
         self.has_unary = any(len(n[3]) == 1 for n in ref.preorder(spec))
@@ -294,6 +407,7 @@ class Intent(object):
         self.model = kw.get("model")            # None | ('filter', accept_names, recursive)
         self.judge_removed = kw.get("judge_removed", False)
         self.check_paths_fully = False
+        self.tags = tuple(kw.get("tags", ()))   # event names counted when (and only when) the call is judged
         self.before = None
         self.after = None
         self.results = []
@@ -306,6 +420,7 @@ class Monitor(object):
         import dendropy
         self.ctx = ctx
         self.intent = None
+        self.last = None
         for name in HOOKED_TREE:
             hooks.install(dendropy.Tree, name, pre=self._pre, post=self._post)
         hooks.install(dendropy.Node, "extract_subtree", pre=self._pre, post=self._post)
@@ -336,6 +451,7 @@ class Monitor(object):
         """perform the call(s) under observation and judge; returns the canonical agreement
         signature of the result (None when the result was not obtained)."""
         self.intent = intent
+        self.last = intent
         try:
             try:
                 thunk()
@@ -369,22 +485,28 @@ def vio(ctx, it, clause, what, extra=None, disc=None):
     return key
 
 
-def expected_for(it, src_spec):
-    """(expected spec, merged names, vanished names, surviving leaf names) from the reference model."""
+def expected_for(it, src_spec, sup=None, excluded=None):
+    """(expected spec, merged names, vanished names, surviving leaf names) from the reference model.
+    src_spec is a leaf view (U.leafview); sup / excluded override the intent's values."""
+    if sup is None:
+        sup = it.sup
+    if excluded is None:
+        excluded = it.excluded
     by_name = dict((U.name_of(n), n) for n in ref.preorder(src_spec))
     if it.model is not None:
         _, accept_names, recursive = it.model
-        exp, removed = U.filter_model(src_spec, lambda n: U.name_of(n) in accept_names, recursive, it.sup)
+        exp, removed = U.filter_model(src_spec, lambda n: U.name_of(n) in accept_names, recursive, sup)
         if exp is None:
             return None, set(), set(), []
+        exp = U.leafview(exp)
         alive = set(U.name_of(n) for n in ref.preorder(exp))
         vanished = set(U.name_of(n) for n in removed)
         merged = set(by_name) - alive - vanished
         return exp, merged, vanished, [U.name_of(n) for n in ref.leaves(exp)]
-    excl_ids = set(id(by_name[nm]) for nm in it.excluded if nm in by_name)
+    excl_ids = set(id(by_name[nm]) for nm in excluded if nm in by_name)
     keep = U.surviving_leaf_names(src_spec, excl_ids)
-    exp = ref.induced(src_spec, [k for k in keep], it.sup)
-    mine, prov, merged, vanished = U.induced_prov(src_spec, excl_ids, it.sup)
+    exp = ref.induced(src_spec, [k for k in keep], sup)
+    mine, prov, merged, vanished = U.induced_prov(src_spec, excl_ids, sup)
     if (exp is None) != (mine is None) or (exp is not None and ref.ordered(exp) != ref.ordered(mine)):
         raise AssertionError("vf.ref.induced and the provenance model disagree on %s / %s"
                              % (ref.to_newick(src_spec), sorted(it.excluded)))
@@ -444,11 +566,13 @@ def compare_rooted(exp, got, sup, exact):
 
 
 def compare_unrooted(exp, got, sup, exact, judge_lengths):
+    """in-place route with update_bipartitions=True on an unrooted tree: the bipartition update collapses a
+    basal bifurcation (documented in encode_bipartitions), i.e. it may delete ONE child of a bifurcating root
+    that itself has >= 2 children and hang that child's children on the root, adding the deleted edge's length
+    to its sibling's.  Everything else is judged by name like in the rooted comparison."""
     le = sorted(map(str, (U.name_of(x) for x in ref.leaves(exp))))
     lg = sorted(map(str, (U.name_of(x) for x in ref.leaves(got))))
     if le != lg:
-        if any(x[0] is None for x in ref.leaves(got)):
-            return "wrong-leaf-set:taxonless-leaf-left", "leaves %s, expected %s" % (lg, le)
         return "wrong-leaf-set", "leaves %s, expected %s" % (lg, le)
     ug = U.unary_names(got)
     if sup and ug:
@@ -463,16 +587,50 @@ def compare_unrooted(exp, got, sup, exact, judge_lengths):
                     "suppress_unifurcations=False but nodes %s were merged into their child" % sorted(gone))
     if ref.unrooted_splits(exp) != ref.unrooted_splits(got):
         return "clades-differ", "unrooted split set differs from that of the induced tree"
-    if judge_lengths:
+    # ---- by name: which nodes are there, who is whose parent, per-node lengths ---------------------
+    pe, pg = U.parent_names(exp), U.parent_names(got)
+    root = U.name_of(exp)
+    collapsible = set(U.name_of(c) for c in exp[3] if len(c[3]) >= 2) if len(exp[3]) == 2 else set()
+    extra = set(pg) - set(pe)
+    gone = set(pe) - set(pg)
+    if extra or len(gone) > 1 or not gone <= collapsible:
+        return ("wrong-node-survives-merge",
+                "nodes %s are missing, nodes %s are unexpected (only one >=2-child child of a bifurcating root may "
+                "be collapsed by the bipartition update)" % (sorted(map(str, gone)), sorted(map(str, extra))))
+    for nm, par in pg.items():
+        want = pe[nm]
+        if want in gone:
+            want = root
+        if par != want:
+            return "clades-differ", "node %r hangs under %r, expected under %r" % (nm, par, want)
+    le_, lg_ = U.lens_by_name(exp), U.lens_by_name(got)
+    basal = set(U.name_of(c) for c in exp[3]) if collapsible else set()
+    bad = [nm for nm in lg_ if nm not in basal and not U.close(le_[nm], lg_[nm], exact)]
+    if basal and not bad:
+        se = [le_[nm] for nm in basal if le_[nm] is not None]
+        sg = [lg_[nm] for nm in basal if nm in lg_ and lg_[nm] is not None]
+        if not gone:
+            bad = [nm for nm in basal if not U.close(le_[nm], lg_[nm], exact)]
+        elif not U.close(sum(se) if se else None, sum(sg) if sg else None, exact):
+            bad = sorted(basal)
+    if not bad and judge_lengths:
         a, _ = ref.split_lengths(exp, False)
         b, _ = ref.split_lengths(got, False)
-        bad = [k for k in a if not U.close(a[k], b.get(k), exact)]
-        if bad:
-            _, pb = paths_differ(exp, got, exact)
-            if pb:
-                return "path-lengths-changed", "path %s expected %r got %r" % pb[0]
-            return "edge-lengths-differ", "summed split lengths differ (leaf-to-leaf paths equal)"
+        bad = [sorted(map(sorted, k)) for k in a if not U.close(a[k], b.get(k), exact)]
+    if bad:
+        _, pb = paths_differ(exp, got, exact)
+        if pb:
+            return "path-lengths-changed", "path %s expected %r got %r" % pb[0]
+        if len(le) == 1:
+            return "length-not-accumulated", "single survivor: lengths of %s differ from the accumulated ones" % bad[:4]
+        return "edge-lengths-differ", "edge lengths of %s differ (leaf-to-leaf paths equal)" % bad[:4]
     return None
+
+
+def compare(exp, got, sup, exact, unrooted_mode, judge_lengths):
+    if unrooted_mode:
+        return compare_unrooted(exp, got, sup, exact, judge_lengths)
+    return compare_rooted(exp, got, sup, exact)
 
 
 def judge(ctx, it):
@@ -482,30 +640,33 @@ def judge(ctx, it):
     if it.before is None:
         ctx.violation("harness|hook-not-entered|%s" % op, "the hook on %s saw no call" % op)
         return None
+    src = it.before
+    if src.dup_names:
+        ctx.violation("harness|duplicate-node-names", "workload tree has duplicate names %s" % src.dup_names)
+        return None
+    src_orig = src.spec
+    if it.subnode:
+        src_orig = [n for n in ref.preorder(src.spec) if U.name_of(n) == it.subnode][0]
+    src_spec = U.leafview(src_orig)
+    exp, merged, vanished, keep = expected_for(it, src_spec)
     if it.exc is not None:
         import dendropy
-        if it.subnode and isinstance(it.exc, ValueError):
-            # documented-in-code limitation (TODO in Node.extract_subtree): noted, not judged
+        if (it.subnode and isinstance(it.exc, ValueError) and it.sup and exp is not None
+                and it.subnode in merged):
+            # documented-in-code limitation (TODO in Node.extract_subtree): the called-on node itself would be
+            # suppressed.  Noted, not judged -- every other ValueError is judged below.
             ctx.note("Node.extract_subtree(non-root)-top-node-unary-raises-ValueError")
             return None
         if it.container in ONESHOT and (isinstance(it.exc, dendropy.utility.error.SeedNodeDeletionException)
                                         or (isinstance(it.exc, AttributeError) and "remove_child" in str(it.exc))):
             # every leaf was filtered out although the intent keeps some: the wrong-leaf-set mechanism
             vio(ctx, it, "wrong-leaf-set", "no leaf survived (%s) although %d taxa were to be kept" % (
-                core_brief(it.exc), len(it.world.leaf_names) - len(it.excluded)))
+                core_brief(it.exc), len(keep)))
             return None
         ctx.unexpected(op, it.exc, {"tree": ref.to_newick(it.before.spec), "filtered_out": sorted(it.excluded),
                                     "suppress_unifurcations": it.sup, "update_bipartitions": it.upd,
-                                    "container": it.container})
+                                    "container": it.container, "called_on_node": it.subnode})
         return None
-    src = it.before
-    if src.dup_names:
-        ctx.violation("harness|duplicate-node-names", "workload tree has duplicate names %s" % src.dup_names)
-        return None
-    src_spec = src.spec
-    if it.subnode:
-        src_spec = [n for n in ref.preorder(src.spec) if U.name_of(n) == it.subnode][0]
-    exp, merged, vanished, keep = expected_for(it, src_spec)
     if exp is None:
         ctx.note("no-surviving-leaf:not-judged")
         return None
@@ -524,7 +685,8 @@ def judge(ctx, it):
             vio(ctx, it, "malformed-result", str(e))
             return None
         res_tree = res if hasattr(res, "_seed_node") else None
-    got = got_snap.spec
+    got_orig = got_snap.spec
+    got = U.leafview(got_orig)
     if res_tree is not None:
         probs = arbor.check(res_tree, iterators=False)
         if probs:
@@ -538,32 +700,94 @@ def judge(ctx, it):
     unrooted_mode = it.kind == "inplace" and it.upd and not w.rooted
     ctx.ev("oracle:induced-compared")
     ctx.ev("op:%s" % op)
+    for tag in it.tags:
+        ctx.ev(tag)
+    for fl in w.flavours:
+        ctx.ev("class:%s" % fl)
+    if it.subnode:
+        ctx.ev("subnode:extract_subtree-judged")
     single = len(keep) == 1
     if single:
         ctx.ev("oracle:single-survivor-compared")
     if unrooted_mode:
         ctx.ev("oracle:induced-compared:as-unrooted-tree")
-        verdict = compare_unrooted(exp, got, it.sup, w.exact, w.all_lengths)
-    else:
-        verdict = compare_rooted(exp, got, it.sup, w.exact)
     fired = None
+    extra_detail = {}
+    leafset_ok = True
+    # ---- (1a) the leaf set, with the two named deviations on the new input classes -------------------
+    exp_leaf = set(U.name_of(x) for x in ref.leaves(exp))
+    got_leaf = set(U.name_of(x) for x in ref.leaves(got))
+    if exp_leaf != got_leaf:
+        missing, extra = exp_leaf - got_leaf, got_leaf - exp_leaf
+        tl_src = U.taxonless_leaf_names(src_orig)
+        int_tax = U.internal_taxon_names(src_orig)
+        if it.model is None and missing <= tl_src and extra <= int_tax:
+            if missing:
+                fired = vio(ctx, it, "wrong-leaf-set:taxonless-source-leaf-removed",
+                            "source leaves without taxon %s were removed although the call does not name them" % sorted(missing),
+                            {"expected": ref.to_newick(exp), "got": ref.to_newick(got_orig)})
+            if extra and op in REMOVES_TAXONLESS:
+                # documented for these calls: only terminal nodes WITHOUT a taxon are cleaned up
+                ctx.note("emptied-internal-node-with-taxon-stays-a-leaf:documented-for:%s" % op)
+            elif extra:
+                k = vio(ctx, it, "wrong-leaf-set:emptied-internal-node-with-taxon-left",
+                        "internal nodes %s lost all their children and are left behind as new leaves (they carry a taxon)"
+                        % sorted(extra), {"expected": ref.to_newick(exp), "got": ref.to_newick(got_orig)})
+                fired = fired or k
+            # judge everything else against the tree induced by the leaf set the library produced
+            alt = ref.copy(src_spec)
+            for n in ref.preorder(alt):
+                if U.name_of(n) in extra:
+                    n[3] = []
+            exp, merged, vanished, keep = expected_for(it, alt, excluded=(set(it.excluded) - extra) | missing)
+            extra_detail["judged-against-leaf-set-as-produced"] = True
+            ctx.ev("oracle:induced-compared:against-leaf-set-as-produced")
+        else:
+            clause = "wrong-leaf-set"
+            if any(x[0] is None and U.name_of(x) not in exp_leaf for x in ref.leaves(got_orig)):
+                clause = "wrong-leaf-set:taxonless-leaf-left"
+            fired = vio(ctx, it, clause, "leaves %s, expected %s" % (sorted(map(str, got_leaf)), sorted(map(str, exp_leaf))),
+                        {"expected": ref.to_newick(exp), "got": ref.to_newick(got_orig)})
+            leafset_ok = False
+    verdict = None
+    if leafset_ok:
+        verdict = compare(exp, got, it.sup, w.exact, unrooted_mode, w.all_lengths)
+        nothing_excluded = n_removed == 0 and not vanished
+        if nothing_excluded:
+            ctx.ev("oracle:nothing-excluded-compared")
+        if verdict is not None and nothing_excluded and it.sup and U.unary_names(src_spec):
+            # nothing was excluded: no node was *left* with a single child by this call; pre-existing unary
+            # nodes may stay (extract_* docstrings: suppression "only will be done if some nodes are excluded")
+            exp0, _, _, _ = expected_for(it, src_spec, sup=False)
+            if exp0 is not None and compare(exp0, got, False, w.exact, unrooted_mode, w.all_lengths) is None:
+                ctx.note("nothing-excluded:pre-existing-unary-nodes-kept:%s" % op)
+                verdict = None
+                exp, merged = exp0, set()
     if verdict is not None:
         clause, what = verdict
         if single and clause in ("unary-node-left", "wrong-node-survives-merge", "edge-lengths-differ"):
             clause += ":single-survivor"
-        fired = vio(ctx, it, clause, what, {"expected": ref.to_newick(exp), "got": ref.to_newick(got)})
-    elif not unrooted_mode and ref.ordered(exp, lengths=False) != ref.ordered(got, lengths=False):
+        d = {"expected": ref.to_newick(exp), "got": ref.to_newick(got_orig)}
+        d.update(extra_detail)
+        k = vio(ctx, it, clause, what, d)
+        fired = fired or k
+    elif leafset_ok and not unrooted_mode and ref.ordered(exp, lengths=False) != ref.ordered(got, lengths=False):
         ctx.note("child-order-differs-from-source-order:%s" % op)
 
     # ---- (2) path lengths between survivors, source vs result ---------------------------------
-    if fired is None and len(keep) >= 2 and (w.all_lengths or not unrooted_mode):
-        if len(keep) <= 12 or it.check_paths_fully:
-            n, bad = paths_differ(src_spec, got, w.exact)
+    if fired is None and len(keep) >= 2:
+        if len(keep) <= 24 or unrooted_mode or it.check_paths_fully:
+            # a path between two surviving leaves runs through their ancestors only: on a big source the paths
+            # are computed on the source stripped of the other leaves (nothing merged, no length touched)
+            src_paths = src_spec
+            if len(keep) * 2 < len(ref.leaves(src_spec)):
+                src_paths = ref.induced(src_spec, keep, False)
+            n, bad = paths_differ(src_paths, got, w.exact)
             ctx.ev("oracle:path-pairs-compared", n)
             if bad:
                 fired = vio(ctx, it, "path-lengths-changed",
                             "path %s was %r in the source, is %r" % bad[0],
-                            {"expected": ref.to_newick(exp), "got": ref.to_newick(got)})
+                            {"expected": ref.to_newick(exp), "got": ref.to_newick(got_orig)})
     # ---- (6) reported removed nodes -------------------------------------------------------------
     if it.judge_removed:
         judge_removed(ctx, it, src, got_snap, exp, merged, vanished, fired, unrooted_mode)
@@ -597,17 +821,21 @@ def judge(ctx, it):
                     vio(ctx, it, "extraction_source-wrong",
                         "node %r: %s is %s, expected the source node %r" % (
                             U.name_of(sp), it.attr, "missing" if have is missing else hn, U.name_of(sp)),
-                        {"got": ref.to_newick(got)})
+                        {"got": ref.to_newick(got_orig)})
                     break
     # ---- evidence ---------------------------------------------------------------------------------
     if n_removed >= 1 and (ref.n_nodes(exp) > len(keep) or merged):
         ctx.nontrivial((op, ref.canon(src_spec), sorted(map(str, keep)), it.sup, it.upd, w.rooted, it.container))
     if fired is not None:
         return ("violated", fired)
+    if extra_detail:
+        return None         # judged against the leaf set as produced: takes no part in the agreement clause
+    # 1 and 1.0 are the same length: only worlds that mix ints and floats need the normalisation
+    sig_spec = U.float_lengths(got) if "boundary-lengths" in w.flavours else got
     if unrooted_mode:
-        sl, _ = ref.split_lengths(got, False)
+        sl, _ = ref.split_lengths(sig_spec, False)
         return ("u", tuple(sorted(lg_name(got))), frozenset((k, repr(v)) for k, v in sl.items()) if w.exact else None)
-    return ("r", ref.canon(got) if w.exact else ref.canon(got, lengths=False))
+    return ("r", ref.canon(sig_spec) if w.exact else ref.canon(got, lengths=False))
 
 
 def core_brief(exc):
@@ -692,106 +920,226 @@ def maximal_dropped(spec, dropped_leaf_names):
     return out
 
 
-def run_variant(mon, w, op, keep, sup, upd, cont="list", attr="extraction_source", check_paths=False):
-    """apply API variant `op` so that exactly the leaves in `keep` (unique names) survive."""
-    keep = set(keep)
-    drop = [nm for nm in w.leaf_names if nm not in keep]
-    keep_l = [nm for nm in w.leaf_names if nm in keep]
+def name_filter(w, keep_names, costume=0):
+    """predicate on live nodes: 'this node's unique name (taxon name, else node label) is in keep_names',
+    answering with the costume's truthy / falsy objects."""
+    keep_f = frozenset(keep_names)
+    names = w.names
+
+    def base(nd):
+        nm = names.get(id(nd.taxon)) if nd.taxon is not None else nd.label
+        return nm in keep_f
+    return U.costumed(base, costume)
+
+
+_SUBCLASSES = []
+
+
+def subclasses():
+    """a Tree and a Node subclass (extract_tree's tree_factory / node_factory)."""
+    if not _SUBCLASSES:
+        import dendropy
+
+        class NodeSub(dendropy.Node):
+            pass
+
+        class TreeSub(dendropy.Tree):
+            pass
+        _SUBCLASSES.extend([TreeSub, NodeSub])
+    return _SUBCLASSES
+
+
+def quiet(fn, *a, **kw):
+    """call a deprecated wrapper without its deprecation warning on stderr."""
+    with warnings.catch_warnings():
+        warnings.simplefilter("ignore")
+        # the library re-installs its own filter for its deprecation category on first use
+        warnings.showwarning = lambda *args, **kwargs: None
+        return fn(*a, **kw)
+
+
+def run_variant(mon, w, op, keep, sup, upd, cont="list", attr="extraction_source", check_paths=False,
+                tree=None, costume=0, pad=False, factories=False, tags=()):
+    """apply API variant `op` so that exactly the leaves in `keep` (unique names) survive -- on a fresh tree of
+    world w, or on the given live tree (histories).  Leaves without a taxon always survive (no taxon list
+    names them).  Returns the agreement signature (None: not applicable / not obtained)."""
+    ctx = mon.ctx
+    if tree is None:
+        fresh = True
+        spec = w.spec
+        tree = w.build()
+    else:
+        fresh = False
+        spec = U.snap(tree, w.names).spec
+    leaf_names = [U.name_of(n) for n in ref.leaves(spec)]
+    taxonless = U.taxonless_leaf_names(spec)
+    if taxonless and op in REMOVES_TAXONLESS:
+        ctx.ev("not-applicable:%s-on-a-tree-with-taxonless-leaves" % op)
+        return None
+    keep = set(keep) | taxonless
+    drop = [nm for nm in leaf_names if nm not in keep]
+    keep_l = [nm for nm in leaf_names if nm in keep and nm not in taxonless]
+    if not keep_l:
+        # quantifier: every call keeps at least one leaf that a taxon list can name
+        ctx.ev("not-applicable:no-surviving-leaf-with-a-taxon")
+        return None
     flags = {"update_bipartitions": upd, "suppress_unifurcations": sup}
-    kind = "inplace" if op in INPLACE else "extract"
-    tree = w.build()
-    kw = {"container": cont if op not in ("filter_leaf_nodes", "prune_subtree", "prune_leaves_without_taxa",
-                                          "extract_tree", "Node.extract_subtree") else "list", "attr": attr}
+    kind = "extract" if op in EXTRACT else "inplace"
+    tags = list(tags)
+    kw = {"container": cont if op not in NO_CONTAINER else "list", "attr": attr}
     excluded = drop
-    keep_ids = set(id(w.taxa[nm]) for nm in keep_l)
-    leaf_filter = lambda nd: nd.taxon is not None and id(nd.taxon) in keep_ids
-    if op == "prune_taxa":
-        arg = container(cont, [w.taxa[nm] for nm in drop])
-        thunk = lambda: tree.prune_taxa(arg, **flags)
+    pad_taxa, pad_labels = [], []
+    if pad and (w.ns_only or w.foreign):
+        pad_taxa = w.ns_only + w.foreign
+        pad_labels = [t.label for t in w.ns_only] + w.unknown_labels
+        if op not in NO_CONTAINER:
+            tags.append("arg:padded-with-taxa-or-labels-not-on-the-tree")
+    uses_predicate = op in ("filter_leaf_nodes", "extract_tree", "Node.extract_subtree")
+    leaf_filter = name_filter(w, keep, costume if uses_predicate else 0)
+    if uses_predicate and costume % U.N_COSTUMES:
+        tags.append("predicate:answers-with-non-bool-objects")
+
+    def live_nodes():
+        return dict((U.name_of(sp), nd) for sp, nd in U.snap(tree, w.names).pairs)
+    if op in ("prune_taxa", "legacy.prune_taxa"):
+        arg = container(cont, [w.taxa[nm] for nm in drop] + pad_taxa)
+        if op == "prune_taxa":
+            thunk = lambda: tree.prune_taxa(arg, **flags)
+        else:
+            from dendropy.legacy import treemanip
+            thunk = lambda: quiet(treemanip.prune_taxa, tree, arg, suppress_unifurcations=sup)
     elif op == "prune_taxa_with_labels":
-        arg = container(cont, [w.real[nm] for nm in drop])
+        arg = container(cont, [w.real[nm] for nm in drop] + pad_labels)
         thunk = lambda: tree.prune_taxa_with_labels(arg, **flags)
-    elif op == "retain_taxa":
-        arg = container(cont, [w.taxa[nm] for nm in keep_l])
-        thunk = lambda: tree.retain_taxa(arg, **flags)
+    elif op in ("retain_taxa", "legacy.retain_taxa"):
+        arg = container(cont, [w.taxa[nm] for nm in keep_l] + pad_taxa)
+        if op == "retain_taxa":
+            thunk = lambda: tree.retain_taxa(arg, **flags)
+        else:
+            from dendropy.legacy import treemanip
+            thunk = lambda: quiet(treemanip.retain_taxa, tree, arg, suppress_unifurcations=sup)
     elif op == "retain_taxa_with_labels":
-        arg = container(cont, [w.real[nm] for nm in keep_l])
+        arg = container(cont, [w.real[nm] for nm in keep_l] + pad_labels)
         thunk = lambda: tree.retain_taxa_with_labels(arg, **flags)
     elif op == "filter_leaf_nodes":
         kw["judge_removed"] = True
         thunk = lambda: tree.filter_leaf_nodes(leaf_filter, **flags)
     elif op == "prune_nodes":
-        by = dict((U.name_of(sp), nd) for sp, nd in U.snap(tree, w.names).pairs)
+        by = live_nodes()
         arg = container(cont, [by[nm] for nm in drop])
         thunk = lambda: tree.prune_nodes(arg, prune_leaves_without_taxa=True, **flags)
-    elif op == "prune_subtree":
-        tops = maximal_dropped(w.spec, drop)
-        if not tops:
+    elif op == PN_DEFAULT:
+        # the default leaves emptied parents behind: hand over the maximal dropped nodes (as for prune_subtree)
+        by = live_nodes()
+        arg = container(cont, [by[nm] for nm in maximal_dropped(spec, drop)])
+        thunk = lambda: tree.prune_nodes(arg, **flags)
+    elif op in ("prune_subtree", "legacy.prune_subtree"):
+        tops = maximal_dropped(spec, drop)
+        if not tops or (op == "legacy.prune_subtree" and len(tops) > 1):
+            ctx.ev("not-applicable:%s:%s" % (op, "nothing-to-drop" if not tops else "several-subtrees"))
             return None
-        if w.has_unary and sup and len(tops) > 1:
-            mon.ctx.note("prune_subtree-sequence-skipped:pre-existing-unary-nodes")
+        if any(len(n[3]) == 1 for n in ref.preorder(spec)) and sup and len(tops) > 1:
+            ctx.note("prune_subtree-sequence-skipped:pre-existing-unary-nodes")
             return None
-        by = dict((U.name_of(sp), nd) for sp, nd in U.snap(tree, w.names).pairs)
-
-        def thunk():
-            for k, nm in enumerate(tops):
-                last = k == len(tops) - 1
-                tree.prune_subtree(by[nm], update_bipartitions=(upd and last), suppress_unifurcations=sup)
-    elif op == "prune_leaves_without_taxa":
+        by = live_nodes()
+        if op == "legacy.prune_subtree":
+            from dendropy.legacy import treemanip
+            thunk = lambda: quiet(treemanip.prune_subtree, tree, by[tops[0]], suppress_unifurcations=sup)
+        else:
+            def thunk():
+                for k, nm in enumerate(tops):
+                    last = k == len(tops) - 1
+                    tree.prune_subtree(by[nm], update_bipartitions=(upd and last), suppress_unifurcations=sup)
+    elif op in ("prune_leaves_without_taxa", "legacy.prune_leaves_without_taxa"):
+        if not fresh:
+            ctx.ev("not-applicable:%s-in-a-history" % op)
+            return None
         # same tree, but the leaves to go carry no taxon
-        spec2 = ref.copy(w.spec)
+        spec2 = ref.copy(spec)
         for n in ref.leaves(spec2):
             if n[0] not in keep:
                 n[1] = "x_%s" % n[0]
                 n[0] = None
         tree = bridge.build_tree(spec2, w.ns, w.rooted, taxa_by_label=w.taxa)
         excluded = ["x_%s" % nm for nm in drop]
-        kw["judge_removed"] = True
-        thunk = lambda: tree.prune_leaves_without_taxa(**flags)
+        if op == "prune_leaves_without_taxa":
+            kw["judge_removed"] = True
+            thunk = lambda: tree.prune_leaves_without_taxa(**flags)
+        else:
+            from dendropy.legacy import treemanip
+            thunk = lambda: quiet(treemanip.prune_leaves_without_taxa, tree, suppress_unifurcations=sup)
     elif op == "extract_tree_with_taxa":
-        arg = container(cont, [w.taxa[nm] for nm in keep_l])
+        arg = container(cont, [w.taxa[nm] for nm in keep_l] + pad_taxa)
         thunk = lambda: tree.extract_tree_with_taxa(arg, extraction_source_reference_attr_name=attr,
                                                     suppress_unifurcations=sup)
     elif op == "extract_tree_with_taxa_labels":
-        arg = container(cont, [w.real[nm] for nm in keep_l])
+        arg = container(cont, [w.real[nm] for nm in keep_l] + pad_labels)
         thunk = lambda: tree.extract_tree_with_taxa_labels(arg, extraction_source_reference_attr_name=attr,
                                                            suppress_unifurcations=sup)
     elif op == "extract_tree_without_taxa":
-        arg = container(cont, [w.taxa[nm] for nm in drop])
+        arg = container(cont, [w.taxa[nm] for nm in drop] + pad_taxa)
         thunk = lambda: tree.extract_tree_without_taxa(arg, extraction_source_reference_attr_name=attr,
                                                        suppress_unifurcations=sup)
     elif op == "extract_tree_without_taxa_labels":
-        arg = container(cont, [w.real[nm] for nm in drop])
+        arg = container(cont, [w.real[nm] for nm in drop] + pad_labels)
         thunk = lambda: tree.extract_tree_without_taxa_labels(arg, extraction_source_reference_attr_name=attr,
                                                               suppress_unifurcations=sup)
     elif op == "extract_tree":
+        fkw = {}
+        if factories:
+            tree_sub, node_sub = subclasses()
+            fkw = {"tree_factory": tree_sub, "node_factory": node_sub}
+            tags.append("option:extract_tree-with-tree-and-node-factory")
         thunk = lambda: tree.extract_tree(extraction_source_reference_attr_name=attr, node_filter_fn=leaf_filter,
-                                          suppress_unifurcations=sup)
+                                          suppress_unifurcations=sup, **fkw)
     elif op == "Node.extract_subtree":
+        fkw = {}
+        if factories:
+            fkw = {"node_factory": subclasses()[1]}
+            tags.append("option:extract_subtree-with-node-factory")
         thunk = lambda: tree.seed_node.extract_subtree(extraction_source_reference_attr_name=attr,
-                                                       node_filter_fn=leaf_filter, suppress_unifurcations=sup)
+                                                       node_filter_fn=leaf_filter, suppress_unifurcations=sup, **fkw)
     else:
         raise ValueError(op)
-    it = Intent(op, w, tree, sup, upd, excluded, kind, **kw)
+    if op in LEGACY:
+        upd = False
+        tags.append("legacy:wrapper-judged")
+    it = Intent(op, w, tree, sup, upd, excluded, kind, tags=tags, **kw)
     it.check_paths_fully = check_paths
-    return mon.run(it, thunk)
+    sig = mon.run(it, thunk)
+    if factories and op in ("extract_tree", "Node.extract_subtree") and it.exc is None and it.results:
+        # documented, but not part of the STATEMENT: recorded only
+        res = it.results[-1]
+        tree_sub, node_sub = subclasses()
+        nodes = [nd for _, nd in U.snap(res, w.names).pairs]
+        ok = all(type(nd) is node_sub for nd in nodes) and (op != "extract_tree" or type(res) is tree_sub)
+        ctx.note("factories:%s:result-%s" % (op, "built-by-the-factories" if ok else "NOT-built-by-the-factories"))
+    return sig
 
 
-def run_all_variants(mon, w, keep, sup, upd_values=(False, True), ops=None, rng=None):
+def run_all_variants(mon, w, keep, sup, upd_values=(False, True), ops=None, rng=None, costume=None):
     """every API variant on the same (tree, subset, suppress); then the agreement clause."""
     ctx = mon.ctx
     sigs = {}
+    if costume is None and rng is None:
+        # exhaustive part: a deterministic rotation, half of the calls with the strict-bool predicate
+        h = len(keep) * 7 + sum(len(str(x)) + ord(str(x)[-1]) for x in keep) + 3 * bool(sup)
+        costume = 0 if h % 2 else h // 2
     for op in (ops or (EXTRACT + INPLACE)):
+        cost = costume if costume is not None else (0 if rng.random() < 0.4 else rng.randrange(U.N_COSTUMES))
+        pad = rng is not None and rng.random() < 0.5
+        fact = rng is not None and rng.random() < 0.25
         if op in EXTRACT:
             cont = rng.choice(CONTAINERS) if rng else "list"
             attr = "extraction_source"
             if rng is not None and rng.random() < 0.15:
                 attr = rng.choice([None, "src_ref"])
-            sigs[(op, None)] = run_variant(mon, w, op, keep, sup, False, cont, attr)
+            sigs[(op, None)] = run_variant(mon, w, op, keep, sup, False, cont, attr, costume=cost, pad=pad,
+                                           factories=fact)
         else:
-            for upd in upd_values:
+            for upd in (upd_values if op not in LEGACY else (False,)):    # the legacy wrappers have no such switch
                 cont = rng.choice(CONTAINERS) if rng else "list"
-                sigs[(op, upd)] = run_variant(mon, w, op, keep, sup, upd, cont)
+                sigs[(op, upd)] = run_variant(mon, w, op, keep, sup, upd, cont, costume=cost, pad=pad)
     # ---- (3) agreement: extraction and in-place(upd=False) in rooted form; in-place(upd=True) among themselves
     groups = [[k for k in sigs if k[1] in (None, False)], [k for k in sigs if k[1] is True]]
     for g in groups:
@@ -848,22 +1196,61 @@ def biased_subsets(rng, spec, k):
     return out
 
 
-def random_world(rng, tier, p_unary=None, real_labels=False):
+ODD_LABELS = ("sp %d", "sp_%d", "'q%d'", "été %d", "%d", " lead%d", "x.y-%d", "a'b%d")
+
+
+def random_world(rng, tier, p_unary=None, real_labels=False, flavours=True):
+    """flavours: False = the plain class only (every leaf has a taxon, no taxon on internal nodes);
+    True = sometimes taxa on internal nodes / leaves without taxon / odd labels.  A namespace larger than
+    the tree and the 'boundary' length pattern may come with either."""
     sizes = [2, 3, 4, 6, 8, 11, 14] if tier == "quick" else [2, 3, 5, 8, 12, 14, 20, 30, 45, 60]
     n = rng.choice(sizes)
     shape = rng.choice([None, None, None, "caterpillar", "star", "balanced"])
     if p_unary is None:
         p_unary = rng.choice([0, 0, 0.15, 0.3])
     spec = gen.random_spec(rng, n, p_poly=rng.choice([0, 0.3, 0.6]), p_unary=p_unary, shape=shape)
-    pat = rng.choice(["ints", "ints", "dyadic", "zeros", "mixed_missing", "mixed_missing", "none", "float", "unit"])
-    gen.decorate_lengths(spec, rng, pat, root_length=rng.random() < 0.3)
+    pat = rng.choice(["ints", "ints", "dyadic", "zeros", "mixed_missing", "mixed_missing", "none", "float", "unit",
+                      "boundary", "boundary"])
+    fl = []
+    if pat == "boundary":
+        U.boundary_lengths(spec, rng)
+        fl.append("boundary-lengths")
+    else:
+        gen.decorate_lengths(spec, rng, pat, root_length=rng.random() < 0.3)
     label_internal(spec)
     rooted = rng.choice([True, True, False, None])
     rl = None
     if real_labels:
         pool = ["dup%d" % k for k in range(max(1, n // 3))]
         rl = dict((nm, rng.choice(pool) if rng.random() < 0.6 else nm) for nm in ref.leaf_taxa(spec))
-    return World(spec, rooted, rl), pat
+    elif flavours:
+        r = rng.random()
+        if r < 0.22:
+            # taxa on internal nodes (sometimes the seed too); about half of them keep their node label as well
+            inner = [x for x in ref.preorder(spec) if x[3]]
+            for k, x in enumerate(inner):
+                if rng.random() < (0.5 if x is not spec else 0.3):
+                    x[0] = "X%d" % k
+                    if rng.random() < 0.5:
+                        x[1] = None
+            if any(x[0] is not None for x in inner):
+                fl.append("taxa-on-internal-nodes")
+        elif r < 0.37 and n >= 3:
+            lv = ref.leaves(spec)
+            for k, x in enumerate(lv[1:]):       # the first leaf keeps its taxon: a taxon route can keep >= 1 leaf
+                if rng.random() < 0.3:
+                    x[1] = "x%d" % k
+                    x[0] = None
+            if any(x[0] is None for x in lv):
+                fl.append("leaves-without-taxon")
+        elif r < 0.5:
+            rl = dict((nm, "") for nm in ref.leaf_taxa(spec)[:1] if rng.random() < 0.5)
+            for k, nm in enumerate(ref.leaf_taxa(spec)):
+                if nm not in rl:
+                    rl[nm] = (rng.choice(ODD_LABELS) % k) if rng.random() < 0.7 else nm
+            fl.append("odd-labels")
+    n_extra = rng.randint(1, 4) if rng.random() < 0.35 else 0
+    return World(spec, rooted, rl, n_extra=n_extra, flavours=fl), pat
 
 
 def run_case(case, ctx):
@@ -875,12 +1262,14 @@ def run_case(case, ctx):
         mon = Monitor(ctx, hooks)
         if kind == "directed":
             d = DIRECTED[case["i"]]
-            w = World(parse_tiny_newick(d["newick"]), d["rooted"])
+            fl = [k for k in ("internal_taxa", "taxonless") if k in d]
+            w = World(parse_tiny_newick(d["newick"], d.get("internal_taxa", ()), d.get("taxonless", ())), d["rooted"],
+                      flavours=["taxa-on-internal-nodes" if k == "internal_taxa" else "leaves-without-taxon" for k in fl])
             if "container" in d:
                 for op in d["ops"]:
                     run_variant(mon, w, op, d["keep"], d["sup"], d["upd"], d["container"])
             else:
-                run_all_variants(mon, w, d["keep"], d["sup"], (d["upd"],))
+                run_all_variants(mon, w, d["keep"], d["sup"], (d["upd"],), costume=d.get("costume", 0))
             ctx.sample({"kind": "directed", "name": d["name"], "tree": ref.to_newick(w.spec), "keep": d["keep"],
                         "suppress_unifurcations": d["sup"], "update_bipartitions": d["upd"]})
         elif kind == "shape":
@@ -895,6 +1284,10 @@ def run_case(case, ctx):
             run_duplabels(case, ctx, mon, rng)
         elif kind == "subnode":
             run_subnode(case, ctx, mon, rng)
+        elif kind == "history":
+            run_history(case, ctx, mon, rng)
+        elif kind == "options":
+            run_options(case, ctx, mon, rng)
         else:
             raise ValueError(kind)
 
@@ -948,7 +1341,10 @@ def run_shape(case, ctx, mon, rng):
                         ops = ("prune_taxa",) + tuple(o for o in (every[(k + 3 * j) % len(every)] for j in range(5))
                                                       if o != "prune_taxa")
                         run_all_variants(mon, w, keep, sup, (bool((pick + sup) % 2),), ops=ops)
-                    elif n <= 4 or (n == 5 and pick == 0):
+                    elif n <= 4:
+                        # unrooted / is_rooted=None realisation: every variant, both update settings
+                        run_all_variants(mon, w, keep, sup, (False, True))
+                    elif n == 5 and pick == 0:
                         run_all_variants(mon, w, keep, sup, (True,), ops=INPLACE + ("extract_tree",))
     if idx in (0, 7) and n in (4, 5):
         ctx.sample({"kind": "shape", "tree": ref.to_newick(worlds[0].spec), "subsets": 2 ** len(taxa) - 1,
@@ -962,16 +1358,22 @@ def run_random(case, ctx, mon, rng):
         sup = rng.random() < 0.6
         upd = rng.random() < 0.4
         ops = ["prune_taxa"] + rng.sample(EXTRACT + INPLACE[1:], 5 if len(w.leaf_names) > 20 else 7)
+        if rng.random() < 0.3:
+            ops.append(rng.choice(LEGACY))
         run_all_variants(mon, w, keep, sup, (upd,), ops=ops, rng=rng)
     if case["i"] < 3:
-        ctx.sample({"kind": "random", "tree": ref.to_newick(w.spec), "rooted": w.rooted, "lengths": pat})
+        ctx.sample({"kind": "random", "tree": ref.to_newick(w.spec), "rooted": w.rooted, "lengths": pat,
+                    "classes": list(w.flavours)})
 
 
 def run_filters(case, ctx, mon, rng):
     """node-filter predicates on leaves and internal nodes: extract_tree / extract_subtree with both
     is_apply_* switches; filter_leaf_nodes with predicates that accept some emptied internal nodes and
-    with recursive=False (documented semantics, lock-step model); prune_taxa on internal-node taxa."""
-    w, pat = random_world(rng, "quick")
+    with recursive=False (documented semantics, lock-step model); prune_leaves_without_taxa with recursive
+    on / off; prune_taxa(_with_labels) on taxa sitting on leaves AND internal nodes with every setting
+    (given / left at its default) of is_apply_filter_to_leaf_nodes / is_apply_filter_to_internal_nodes.
+    All predicates answer with truthy / falsy objects of the case's costume."""
+    w, pat = random_world(rng, "quick", flavours=False)
     spec = w.spec
     internal = [U.name_of(n) for n in ref.preorder(spec) if n[3] and n is not spec]
     leaves_ = w.leaf_names
@@ -987,24 +1389,25 @@ def run_filters(case, ctx, mon, rng):
             ctx.note("filters:no-surviving-leaf-skipped")
             continue
         tree = w.build()
-        names = w.names
-        excl_f = frozenset(excl)
-
-        def fn(nd, names=names, excl_f=excl_f):
-            nm = names[id(nd.taxon)] if nd.taxon is not None else nd.label
-            return nm not in excl_f
+        cost = 0 if rng.random() < 0.4 else rng.randrange(U.N_COSTUMES)
+        fn = name_filter(w, set(by_name) - excl, cost)
         via_node = rng.random() < 0.3
         attr = rng.choice(["extraction_source", "extraction_source", "src_ref", None])
+        # the two switches are handed over explicitly, or left out when they have their default value
+        okw = {}
+        if not L or rng.random() < 0.5:
+            okw["is_apply_filter_to_leaf_nodes"] = L
+        if I or rng.random() < 0.5:
+            okw["is_apply_filter_to_internal_nodes"] = I
         if via_node:
             thunk = lambda: tree.seed_node.extract_subtree(
-                extraction_source_reference_attr_name=attr, node_filter_fn=fn, suppress_unifurcations=sup,
-                is_apply_filter_to_leaf_nodes=L, is_apply_filter_to_internal_nodes=I)
+                extraction_source_reference_attr_name=attr, node_filter_fn=fn, suppress_unifurcations=sup, **okw)
         else:
             thunk = lambda: tree.extract_tree(
-                extraction_source_reference_attr_name=attr, node_filter_fn=fn, suppress_unifurcations=sup,
-                is_apply_filter_to_leaf_nodes=L, is_apply_filter_to_internal_nodes=I)
-        it = Intent("Node.extract_subtree" if via_node else "extract_tree", w, tree, sup, False, eff, "extract", attr=attr)
-        it.check_paths_fully = False
+                extraction_source_reference_attr_name=attr, node_filter_fn=fn, suppress_unifurcations=sup, **okw)
+        tags = ["predicate:answers-with-non-bool-objects"] if cost else []
+        it = Intent("Node.extract_subtree" if via_node else "extract_tree", w, tree, sup, False, eff, "extract", attr=attr,
+                    tags=tags)
         ctx.ev("filters:extract leaf-filter=%s internal-filter=%s" % (L, I))
         mon.run(it, thunk)
     # filter_leaf_nodes: general predicates, recursive on/off
@@ -1019,47 +1422,71 @@ def run_filters(case, ctx, mon, rng):
             ctx.note("filters:no-surviving-leaf-skipped")
             continue
         tree = w.build()
-        names = w.names
         acc_f = frozenset(accept)
-
-        def ffn(nd, names=names, acc_f=acc_f):
-            nm = names[id(nd.taxon)] if nd.taxon is not None else nd.label
-            return nm in acc_f
+        cost = 0 if rng.random() < 0.4 else rng.randrange(U.N_COSTUMES)
+        ffn = name_filter(w, acc_f, cost)
+        tags = ["predicate:answers-with-non-bool-objects"] if cost else []
         it = Intent("filter_leaf_nodes", w, tree, sup, upd, [x for x in leaves_ if x not in accept], "inplace",
-                    model=("filter", acc_f, recursive), judge_removed=True)
-        it.check_paths_fully = False
+                    model=("filter", acc_f, recursive), judge_removed=True, tags=tags)
         ctx.ev("filters:filter_leaf_nodes recursive=%s" % recursive)
-        mon.run(it, lambda: tree.filter_leaf_nodes(ffn, recursive=recursive, update_bipartitions=upd,
-                                                   suppress_unifurcations=sup))
-    # prune_taxa / prune_taxa_with_labels on taxa sitting on *internal* nodes (whole subtree goes)
-    if internal:
-        for _ in range(3):
-            tops = rng.sample(internal, min(len(internal), rng.randint(1, 2)))
-            by_name = dict((U.name_of(n), n) for n in ref.preorder(spec))
-            if not U.surviving_leaf_names(spec, set(id(by_name[x]) for x in tops)):
-                continue
-            spec2 = ref.copy(spec)
-            for n2 in ref.preorder(spec2):
-                if n2[3] and n2[1] in tops:
-                    n2[0] = "tx_%s" % n2[1]
-                    n2[1] = None
-            w2 = World(spec2, w.rooted)
-            tree = w2.build()
-            sup = rng.random() < 0.6
-            upd = rng.random() < 0.3
-            bylab = rng.random() < 0.4
-            taxa = [w2.taxa["tx_%s" % x] for x in tops]
-            it = Intent("prune_taxa_with_labels" if bylab else "prune_taxa", w2, tree, sup, upd,
-                        ["tx_%s" % x for x in tops], "inplace")
-            it.check_paths_fully = False
-            ctx.ev("filters:prune_taxa is_apply_filter_to_internal_nodes=True")
-            if bylab:
-                mon.run(it, lambda: tree.prune_taxa_with_labels([t.label for t in taxa], update_bipartitions=upd,
-                                                                suppress_unifurcations=sup,
-                                                                is_apply_filter_to_internal_nodes=True))
-            else:
-                mon.run(it, lambda: tree.prune_taxa(taxa, update_bipartitions=upd, suppress_unifurcations=sup,
-                                                    is_apply_filter_to_internal_nodes=True))
+        rkw = {} if (recursive and rng.random() < 0.5) else {"recursive": recursive}
+        mon.run(it, lambda: tree.filter_leaf_nodes(ffn, update_bipartitions=upd, suppress_unifurcations=sup, **rkw))
+    # prune_leaves_without_taxa, recursive on / off: the documented single pass leaves emptied parents behind
+    for _ in range(4):
+        gone = set(x for x in leaves_ if rng.random() < rng.choice([0.3, 0.6]))
+        if len(gone) == len(leaves_):
+            gone.discard(rng.choice(leaves_))
+        recursive = rng.random() < 0.5
+        sup = rng.random() < 0.5
+        upd = rng.random() < 0.3
+        spec2 = ref.copy(spec)
+        for n in ref.leaves(spec2):
+            if n[0] in gone:
+                n[1] = "x_%s" % n[0]
+                n[0] = None
+        acc_f = frozenset(n[0] for n in ref.preorder(spec2) if n[0] is not None)
+        tree = bridge.build_tree(spec2, w.ns, w.rooted, taxa_by_label=w.taxa)
+        it = Intent("prune_leaves_without_taxa", w, tree, sup, upd, ["x_%s" % x for x in gone], "inplace",
+                    model=("filter", acc_f, recursive), judge_removed=True)
+        ctx.ev("filters:prune_leaves_without_taxa recursive=%s" % recursive)
+        rkw = {} if (recursive and rng.random() < 0.5) else {"recursive": recursive}
+        mon.run(it, lambda: tree.prune_leaves_without_taxa(update_bipartitions=upd, suppress_unifurcations=sup, **rkw))
+    # prune_taxa / prune_taxa_with_labels, taxa on leaves and on internal nodes, both is_apply_* switches
+    for _ in range(5):
+        tops = rng.sample(internal, min(len(internal), rng.randint(0, 2))) if internal else []
+        spec2 = ref.copy(spec)
+        for n2 in ref.preorder(spec2):
+            if n2[3] and n2[1] in tops:
+                n2[0] = "tx_%s" % n2[1]
+                n2[1] = None
+        w2 = World(spec2, w.rooted, n_extra=len(w.ns_only), flavours=["taxa-on-internal-nodes"] if tops else [])
+        listed_leaves = [x for x in leaves_ if rng.random() < 0.3]
+        L = rng.choice([None, None, True, False])      # None: the switch is left at its default (True)
+        I = rng.choice([None, None, True, False])      # None: left at its default (False)
+        eff = (listed_leaves if L in (None, True) else []) + (["tx_%s" % x for x in tops] if I else [])
+        by_name = dict((U.name_of(n), n) for n in ref.preorder(spec2))
+        if not U.surviving_leaf_names(spec2, set(id(by_name[x]) for x in eff)):
+            ctx.note("filters:no-surviving-leaf-skipped")
+            continue
+        tree = w2.build()
+        sup = rng.random() < 0.6
+        upd = rng.random() < 0.3
+        bylab = rng.random() < 0.4
+        taxa = [w2.taxa["tx_%s" % x] for x in tops] + [w2.taxa[x] for x in listed_leaves]
+        rng.shuffle(taxa)
+        okw = {}
+        if L is not None:
+            okw["is_apply_filter_to_leaf_nodes"] = L
+        if I is not None:
+            okw["is_apply_filter_to_internal_nodes"] = I
+        it = Intent("prune_taxa_with_labels" if bylab else "prune_taxa", w2, tree, sup, upd, eff, "inplace")
+        ctx.ev("filters:prune_taxa is_apply_filter_to_leaf_nodes=%s is_apply_filter_to_internal_nodes=%s" % (
+            "default" if L is None else L, "default" if I is None else I))
+        if bylab:
+            mon.run(it, lambda: tree.prune_taxa_with_labels([t.label for t in taxa], update_bipartitions=upd,
+                                                            suppress_unifurcations=sup, **okw))
+        else:
+            mon.run(it, lambda: tree.prune_taxa(taxa, update_bipartitions=upd, suppress_unifurcations=sup, **okw))
 
 
 def run_containers(case, ctx, mon, rng):
@@ -1071,16 +1498,20 @@ def run_containers(case, ctx, mon, rng):
     else:
         w, _ = random_world(rng, "quick", p_unary=0)
         subsets = biased_subsets(rng, w.spec, 4)
-    ops = ("prune_taxa", "prune_taxa_with_labels", "retain_taxa", "retain_taxa_with_labels", "prune_nodes",
+    ops = ("prune_taxa", "prune_taxa_with_labels", "retain_taxa", "retain_taxa_with_labels", "prune_nodes", PN_DEFAULT,
            "extract_tree_with_taxa", "extract_tree_with_taxa_labels", "extract_tree_without_taxa",
            "extract_tree_without_taxa_labels")
     for keep in subsets:
         for op in ops:
             for cont in ("iterator", "generator", "namespace", "set", "dictkeys"):
-                if cont == "namespace" and (op in LABEL_OPS or op == "prune_nodes"):
+                if cont == "namespace" and (op in LABEL_OPS or op in ("prune_nodes", PN_DEFAULT)):
                     continue
                 ctx.ev("containers:%s" % cont)
-                run_variant(mon, w, op, keep, True, False, cont)
+                if case.get("fixed"):
+                    sup, upd = True, False
+                else:
+                    sup, upd = rng.random() < 0.6, rng.random() < 0.4
+                run_variant(mon, w, op, keep, sup, upd if op in INPLACE else False, cont, pad=rng.random() < 0.3)
 
 
 def explore_casefold(ctx):
@@ -1130,21 +1561,21 @@ def run_subnode(case, ctx, mon, rng):
             break
         top = rng.choice(internal)
         under = [U.name_of(x) for x in ref.leaves(top)]
-        keep = [x for x in under if rng.random() < 0.7] or [rng.choice(under)]
+        keep = [x for x in under if rng.random() < rng.choice([0.7, 0.7, 1.0])] or [rng.choice(under)]
         sup = rng.random() < 0.6
         tree = w.build()
         live = dict((U.name_of(sp), nd) for sp, nd in U.snap(tree, w.names).pairs)
-        keep_ids = set(id(w.taxa[nm]) for nm in keep)
-        fn = lambda nd: nd.taxon is not None and id(nd.taxon) in keep_ids
+        cost = 0 if rng.random() < 0.4 else rng.randrange(U.N_COSTUMES)
+        fn = name_filter(w, keep, cost)
+        attr = rng.choice(["extraction_source", "extraction_source", "src_ref", None])
         it = Intent("Node.extract_subtree", w, tree, sup, False, [x for x in under if x not in keep], "extract",
-                    subnode=U.name_of(top))
-        it.check_paths_fully = False
+                    subnode=U.name_of(top), attr=attr, tags=["predicate:answers-with-non-bool-objects"] if cost else [])
         ctx.ev("subnode:extract_subtree-on-internal-node")
-        mon.run(it, lambda: live[U.name_of(top)].extract_subtree(node_filter_fn=fn, suppress_unifurcations=sup))
+        mon.run(it, lambda: live[U.name_of(top)].extract_subtree(node_filter_fn=fn, suppress_unifurcations=sup,
+                                                                  extraction_source_reference_attr_name=attr))
     # pure clone (no filter at all): the documented 'clone of the structure'
     tree = w.build()
     it = Intent("extract_tree", w, tree, True, False, [], "extract")
-    it.check_paths_fully = False
     ctx.ev("subnode:pure-clone")
     mon.run(it, lambda: tree.extract_tree())
     # prune_subtree of one arbitrary non-root node (leaf or internal)
@@ -1159,5 +1590,94 @@ def run_subnode(case, ctx, mon, rng):
             continue
         if maximal_dropped(spec, gone) != [U.name_of(top)]:
             continue     # parent would be left as a taxon-less leaf: not a leaf-removal in the property's sense
+        if gone & U.taxonless_leaf_names(spec):
+            continue     # run_variant keeps every leaf without taxon
         ctx.ev("subnode:prune_subtree-single")
         run_variant(mon, w, "prune_subtree", keep, rng.random() < 0.6, rng.random() < 0.4)
+
+
+HISTORY_INPLACE = tuple(o for o in INPLACE if o != "prune_leaves_without_taxa") + ("legacy.prune_taxa", "legacy.retain_taxa")
+HISTORY_OPS = HISTORY_INPLACE + EXTRACT
+
+
+def run_history(case, ctx, mon, rng):
+    """2-4 operations chained on ONE live tree; every step is judged against the reference model of the tree
+    as it stood when the step began (the hooks snapshot it).  Covers: a second prune / retain of an already
+    pruned tree, pruning a tree that carries a bipartition encoding, extraction from an extracted tree (whose
+    nodes already carry the provenance attribute), and the independence of earlier clones from later in-place
+    operations on their source."""
+    w, pat = random_world(rng, "quick")
+    tree = w.build()
+    if rng.random() < 0.35:
+        tree.encode_bipartitions()
+        ctx.ev("history:tree-carries-a-bipartition-encoding")
+    clones = []           # (extracted tree, its snapshot) taken from the current tree in earlier steps
+    for step in range(rng.randint(2, 5)):
+        cur = U.snap(tree, w.names).spec
+        names = [U.name_of(x) for x in ref.leaves(cur)]
+        if len(names) < 2:
+            break
+        if rng.random() < 0.5:
+            keep = [x for x in names if rng.random() < 0.8] or names[:1]      # long chains: most leaves stay
+        else:
+            keep = biased_subsets(rng, cur, 1)[0]
+        sup = rng.random() < 0.6
+        upd = rng.random() < 0.4
+        if clones and rng.random() < 0.6:
+            op = rng.choice(HISTORY_INPLACE)     # an earlier clone is being watched: prune its source
+        else:
+            op = rng.choice(HISTORY_OPS)
+        attr = rng.choice(["extraction_source", "extraction_source", "extraction_source", "src_ref"])
+        cost = 0 if rng.random() < 0.4 else rng.randrange(U.N_COSTUMES)
+        tags = ["history:step-%s-judged" % ("1" if step == 0 else "2+")]
+        sig = run_variant(mon, w, op, keep, sup, upd if op in INPLACE else False, rng.choice(CONTAINERS), attr,
+                          tree=tree, costume=cost, pad=rng.random() < 0.4, tags=tags)
+        it = mon.last
+        if sig is None or sig[0] == "violated" or it is None or it.exc is not None:
+            if sig is not None and sig[0] == "violated":
+                break
+            continue
+        if op in EXTRACT:
+            res = it.results[-1]
+            if op == "Node.extract_subtree":
+                continue
+            clones.append((op, res, U.snap(res, w.names)))
+            if rng.random() < 0.4:
+                tree = res           # go on with the clone: its nodes already carry the provenance attribute
+                clones = []
+                ctx.ev("history:continues-on-the-extracted-tree")
+        else:
+            for cop, ctree, csnap in clones:
+                ctx.ev("oracle:clone-independent-of-later-source-pruning-compared")
+                try:
+                    now = U.snap(ctree, w.names)
+                except U.SnapError as e:
+                    now = None
+                if now is None or now.sig != csnap.sig:
+                    ctx.violation("%s|extracted-tree-altered-by-later-pruning-of-its-source|extraction" % cop,
+                                  "a tree extracted earlier changed when its source was pruned in place (%s)" % op,
+                                  {"source_then": ref.to_newick(it.before.spec), "operation": op,
+                                   "change": describe_sig_change(csnap, now) if now is not None else "malformed"})
+    if case["i"] < 2:
+        ctx.sample({"kind": "history", "tree": ref.to_newick(w.spec), "classes": list(w.flavours)})
+
+
+def run_options(case, ctx, mon, rng):
+    """option values and aliases on one random tree: the dendropy.legacy.treemanip wrappers, extract_tree /
+    extract_subtree with tree_factory / node_factory, all agreeing with the plain routes."""
+    w, pat = random_world(rng, "quick")
+    for keep in biased_subsets(rng, w.spec, 3):
+        sup = rng.random() < 0.6
+        ops = ("prune_taxa", "extract_tree", "Node.extract_subtree") + LEGACY
+        sigs = {}
+        for op in ops:
+            sigs[op] = run_variant(mon, w, op, keep, sup, False, rng.choice(CONTAINERS),
+                                   costume=rng.randrange(U.N_COSTUMES), pad=rng.random() < 0.5,
+                                   factories=op in EXTRACT)
+        good = [k for k in ops if sigs[k] is not None and sigs[k][0] != "violated"]
+        for k in good[1:]:
+            ctx.ev("oracle:agreement-compared")
+            if sigs[k] != sigs[good[0]]:
+                ctx.violation("agreement|%s-vs-%s|results-differ-although-each-passed-the-oracle" % (k, good[0]),
+                              "API variants disagree on the same (tree, subset, flags)",
+                              {"tree": ref.to_newick(w.spec), "keep": sorted(keep), "suppress_unifurcations": sup})
